@@ -21,7 +21,8 @@
 EXTENDS Integers, Sequences, TLC, Json
 
 CONSTANTS MaxDepth,     \* bound on open frames
-          MaxLen        \* bound on history length (model checking only)
+          MaxLen,       \* bound on history length (model checking only)
+          RaiseKinds    \* which kinds of exception the model raises (subset of 0..3)
 
 VARIABLES gval, ign, one, frames, unwinding, userIgn, hist
 
@@ -71,12 +72,14 @@ Leave ==
     /\ UNCHANGED <<unwinding, userIgn>>
     /\ Log([a |-> "leave", c |-> 0])
 
-(* some statement raises (failed assertion, user exception, ...) *)
-Raise ==
+(* some statement raises: k = 0 an ordinary exception (failed assertion, user exception, ...),            *)
+(* k = 1 / 2 / 3 a KeyboardInterrupt / SystemExit / GeneratorExit, which are not subclasses of Exception.   *)
+(* The kind makes no difference to the guard machinery: every exception unwinds and restores.             *)
+Raise(k) ==
     /\ ~unwinding
     /\ unwinding' = TRUE
     /\ UNCHANGED <<gval, ign, one, frames, userIgn>>
-    /\ Log([a |-> "raise", c |-> 0])
+    /\ Log([a |-> "raise", c |-> k])
 
 (* the exception leaves a guarded region: except clause restores, re-raises *)
 Unwind ==
@@ -124,7 +127,7 @@ SetIgn(b) ==
 
 Step ==
     \/ \E c \in {0, 1} : Enter(c)
-    \/ EnterRejected \/ Leave \/ Raise \/ Unwind \/ Catch \/ Escape
+    \/ EnterRejected \/ Leave \/ (\E k \in RaiseKinds : Raise(k)) \/ Unwind \/ Catch \/ Escape
     \/ TryEnter \/ TryLeave \/ Call
     \/ \E b \in BOOLEAN : SetIgn(b)
 
